@@ -26,6 +26,8 @@ let run_file file tablefile =
       let push o = obs := o :: !obs in
       let idle () = (match !s.Nucleo.tpc with Nucleo.TIdle -> true | _ -> false) in
       List.iter (fun evs ->
+        (* like the harness: once a step blocked where the schedule did not expect it, the rest is not replayed *)
+        if (match !obs with ("BLOCKED" | "ABORTED") :: _ -> true | _ -> false) then push "ABORTED" else
         match String.split_on_char ' ' (String.trim evs) with
         | ["push"; t; h; g] ->
           (match List.find_opt (fun (h', _) -> i h' = int_of_string h) !s.Nucleo.injectors with
@@ -102,16 +104,31 @@ let run_file file tablefile =
 let npatterns = 7
 (* pool text extensions for truthful append flags: "a"->"ab"->"abc", "ab"->"ab c" *)
 let extends_ old nw = (old = 0) || (old = 1 && (nw = 2 || nw = 3 || nw = 6)) || (old = 2 && (nw = 3 || nw = 6))
-let gen seed count =
+let gen ?tablefile seed count =
   Random.init seed;
-  let sc _ _ _ = None and ln _ _ = N0 in
+  (* with the score table of the harness (pattern pool x text pool) the generator's model state is exactly the one
+     the replay computes (which worker path a run takes, hence item_count / running, depends on whether there are
+     matches); without it every score is None *)
+  let table = Hashtbl.create 100 and lens = Hashtbl.create 20 in
+  (match tablefile with
+   | Some tf -> Match_cmd.iter_lines tf (fun l ->
+       match String.split_on_char ' ' l with
+       | [p; t; sv; len] ->
+         Hashtbl.replace table (int_of_string p, int_of_string t) (if sv = "-" then None else Some (int_of_string sv));
+         Hashtbl.replace lens (int_of_string t) (int_of_string len)
+       | _ -> ())
+   | None -> ());
   for hk = 0 to count - 1 do
-    let style = hk mod 6 in
+    let items : (int * int, int) Hashtbl.t = Hashtbl.create 50 in
+    let text_of sid idx = match Hashtbl.find_opt items (i sid, i idx) with Some g -> g mod ntexts | None -> 0 in
+    let sc p sid idx = match Hashtbl.find_opt table (i p, text_of sid idx) with Some (Some v) -> Some (n v) | _ -> None in
+    let ln sid idx = match Hashtbl.find_opt lens (text_of sid idx) with Some l -> n l | None -> N0 in
+    let style = hk mod 8 in
     let s = ref Nucleo.init_nstate in
     let ev e = s := Nucleo.do_event sc ln !s e in
     let out = ref [] in
     let emit x = out := x :: !out in
-    let threads = ref [] in         (* (tid, sid, stage ref, idx ref) *)
+    let threads = ref [] in         (* (tid, sid, stage ref, idx ref, g) *)
     let next_t = ref 1 and next_h = ref 1 and next_g = ref (Random.int 12) in
     let idle () = (match !s.Nucleo.tpc with Nucleo.TIdle -> true | _ -> false) in
     let held_run () = (match !s.Nucleo.post with Nucleo.PNone -> (match !s.Nucleo.lock with Nucleo.HeldRun _ -> true | _ -> false) | _ -> true) in
@@ -124,20 +141,20 @@ let gen seed count =
         ev (Nucleo.ERun (List.map n seen, n cnt)); emit "run"; true end else false in
     let do_st () =
       (* style 1: keep writers parked between reservation and publication most of the time *)
-      let cands = List.filter (fun (_, _, st, _) -> !st < 2) !threads in
-      let cands = if style = 1 && Random.int 5 > 0 then List.filter (fun (_, _, st, _) -> !st = 0) cands else cands in
+      let cands = List.filter (fun (_, _, st, _, _) -> !st < 2) !threads in
+      let cands = if style = 1 && Random.int 5 > 0 then List.filter (fun (_, _, st, _, _) -> !st = 0) cands else cands in
       match cands with
       | [] -> false
-      | l -> let (t, sid, st, idx) = List.nth l (Random.int (List.length l)) in
-        if !st = 0 then begin idx := i (Nucleo.count_of !s (n sid)); ev (Nucleo.EReserve (n sid)); st := 1 end
+      | l -> let (t, sid, st, idx, g) = List.nth l (Random.int (List.length l)) in
+        if !st = 0 then begin idx := i (Nucleo.count_of !s (n sid)); Hashtbl.replace items (sid, !idx) g; ev (Nucleo.EReserve (n sid)); st := 1 end
         else begin ev (Nucleo.EPublish (n sid, n !idx)); st := 2 end;
         emit (Printf.sprintf "st %d" t); true in
     let do_push () =
       match !s.Nucleo.injectors with
       | [] -> false
-      | l -> if List.length (List.filter (fun (_, _, st, _) -> !st < 2) !threads) >= (if style = 1 then 7 else 4) then false else begin
+      | l -> if List.length (List.filter (fun (_, _, st, _, _) -> !st < 2) !threads) >= (if style = 1 then 7 else 4) then false else begin
           let (h, sid) = List.nth l (Random.int (List.length l)) in
-          threads := (!next_t, i sid, ref 0, ref 0) :: !threads;
+          threads := (!next_t, i sid, ref 0, ref 0, !next_g) :: !threads;
           emit (Printf.sprintf "push %d %d %d" !next_t (i h) !next_g);
           incr next_t; next_g := !next_g + 1 + Random.int 3; true end in
     let do_inj () = if idle () then begin ev (Nucleo.ENewInjector (n !next_h)); emit (Printf.sprintf "inj %d" !next_h); incr next_h; true end else false in
@@ -175,7 +192,7 @@ let gen seed count =
         else if r < 91 then do_inj ()
         else if r < 93 then (match !s.Nucleo.injectors with (h, _) :: _ when Random.bool () -> ev (Nucleo.ECloneInjector (h, n !next_h)); emit (Printf.sprintf "clone %d %d" (i h) !next_h); incr next_h; true | _ -> false)
         else if r < 95 then (match !s.Nucleo.injectors with [] -> false | l -> let (h, _) = List.nth l (Random.int (List.length l)) in
-                              if List.exists (fun (_, _, st, _) -> !st < 2) !threads then false else begin ev (Nucleo.EDropInjector h); emit (Printf.sprintf "dropinj %d" (i h)); true end)
+                              if List.exists (fun (_, _, st, _, _) -> !st < 2) !threads then false else begin ev (Nucleo.EDropInjector h); emit (Printf.sprintf "dropinj %d" (i h)); true end)
         else do_obs () in
       ignore ok;
       (* style 5: cancel-heavy - as soon as a tick has answered `running`, edit the pattern and tick again
@@ -184,10 +201,80 @@ let gen seed count =
         ignore (do_edit ()); ignore (do_tick ()); ignore (do_ut ())
       end
     done;
+    (* style 6: retype - the history ends with: let the worker settle on a non-empty pattern P0 (tick with a long
+       timeout, run to completion), then type WITHOUT a tick in between a new text P1 that does not extend P0
+       (append = false) and an extension P2 of P1 (append = true); the wind-down below then ticks to quiescence *)
+    if style = 6 then begin
+      let f0 = ref 200 in
+      while !f0 > 0 && (not (idle ()) || held_run ()) do decr f0; if not (do_ut ()) then ignore (do_run ()) done;
+      if idle () then begin
+        (* publish most of what is in flight so that the worker has something to (not) match *)
+        for _ = 1 to 6 do if Random.int 4 > 0 then ignore (do_st ()) done;
+        if !cur_pat = 0 || Random.int 3 = 0 then begin
+          let p0 = 1 + Random.int (npatterns - 1) in
+          let app = extends_ !cur_pat p0 && Random.bool () in
+          ev (Nucleo.EEdit (n p0, app, false)); emit (Printf.sprintf "edit %d %d" p0 (Bool.to_int app)); cur_pat := p0
+        end;
+        ev (Nucleo.ETickBegin false); emit "tick 1";
+        let f1 = ref 200 in
+        while !f1 > 0 && (not (idle ()) || held_run ()) do decr f1; if not (do_ut ()) then ignore (do_run ()) done;
+        if Random.bool () then begin
+          ev (Nucleo.ETickBegin false); emit "tick 1";
+          let f2 = ref 200 in
+          while !f2 > 0 && (not (idle ()) || held_run ()) do decr f2; if not (do_ut ()) then ignore (do_run ()) done
+        end;
+        ignore (do_obs ());
+        if idle () then begin
+          let firsts = List.filter (fun q -> q <> !cur_pat && List.exists (fun r -> r <> q && extends_ q r) (List.init npatterns (fun r -> r))) (List.init npatterns (fun q -> q)) in
+          let p1 = List.nth firsts (Random.int (List.length firsts)) in
+          ev (Nucleo.EEdit (n p1, false, false)); emit (Printf.sprintf "edit %d 0" p1);
+          let exts = List.filter (fun r -> r <> p1 && extends_ p1 r) (List.init npatterns (fun r -> r)) in
+          let p2 = List.nth exts (Random.int (List.length exts)) in
+          ev (Nucleo.EEdit (n p2, true, false)); emit (Printf.sprintf "edit %d 1" p2); cur_pat := p2;
+          if Random.int 3 = 0 then ignore (do_push ());
+          for _ = 1 to 3 do if Random.bool () then ignore (do_st ()) done
+        end
+      end
+    end;
+    (* style 7: stale run at restart - the history ends with: a zero-timeout tick leaves a run behind, the run
+       finishes and is NOT collected, restart, a zero-timeout tick that spawns the first run over the new stream and
+       times out on it, observations while that run is still parked; then the wind-down *)
+    if style = 7 then begin
+      let f0 = ref 200 in
+      while !f0 > 0 && (not (idle ()) || held_run ()) do decr f0; if not (do_ut ()) then ignore (do_run ()) done;
+      if idle () && not (held_run ()) then begin
+        if !s.Nucleo.injectors = [] then ignore (do_inj ());
+        (* make sure there is work for the run: a new item, published *)
+        ignore (do_push ());
+        for _ = 1 to 8 do if Random.int 5 > 0 then ignore (do_st ()) done;
+        if Random.int 3 = 0 then ignore (do_edit ());
+        ev (Nucleo.ETickBegin true); emit "tick 0";
+        let f1 = ref 50 in
+        while !f1 > 0 && not (idle ()) do decr f1; if not (do_ut ()) then ignore (do_run ()) done;
+        let f2 = ref 50 in
+        while !f2 > 0 && held_run () do decr f2; ignore (do_run ()) done;
+        if Random.int 4 > 0 then ignore (do_obs ());
+        if Random.int 3 = 0 then (ignore (do_push ()); ignore (do_st ()); ignore (do_st ()));
+        ignore (do_restart ());
+        if Random.int 3 = 0 then ignore (do_obs ());
+        if Random.int 3 = 0 then (ignore (do_inj ()); ignore (do_push ()); ignore (do_st ()); ignore (do_st ()));
+        ev (Nucleo.ETickBegin true); emit "tick 0";
+        let f3 = ref 50 in
+        while !f3 > 0 && not (idle ()) do decr f3; if not (do_ut ()) then ignore (do_run ()) done;
+        ignore (do_obs ());
+        if Random.bool () then begin
+          (* a second timed-out tick while the run over the new stream is still parked / finished but not collected *)
+          for _ = 1 to Random.int 4 do ignore (do_run ()) done;
+          ignore (do_obs ());
+          if Random.bool () then ignore (do_restart ());
+          ignore (do_obs ())
+        end
+      end
+    end;
     (* wind down to quiescence: finish the tick, the run, the writers; then tick until not running *)
     let fuel = ref 400 in
     let progress () = decr fuel; !fuel > 0 in
-    while progress () && (not (idle ()) || held_run () || List.exists (fun (_, _, st, _) -> !st < 2) !threads) do
+    while progress () && (not (idle ()) || held_run () || List.exists (fun (_, _, st, _, _) -> !st < 2) !threads) do
       if not (do_ut ()) then if not (do_run ()) then ignore (do_st ())
     done;
     ignore (do_obs ());
